@@ -37,7 +37,7 @@ func (r *recWriter) Put(k, v []byte) error {
 	return nil
 }
 func (r *recWriter) Delete(k []byte) error { r.ops = append(r.ops, "d:"+h.Hex(k)); return nil }
-func (r *recWriter) Logger() *log.Logger  { return log.Global }
+func (r *recWriter) Logger() *log.Logger   { return log.Global }
 
 func openKVBackends(tmp string, idx int) []*kvBackend {
 	loc := common.Location{0, 0}
@@ -275,7 +275,7 @@ func runKV(seed uint64, n int, outDir string, replay string) {
 		if rc.Chance(10) {
 			length = 100 + rc.Intn(300)
 		}
-		open := []string{}   // batch ids
+		open := []string{} // batch ids
 		tracking := map[string]bool{}
 		written := map[string]bool{}
 		nbatch := 0
